@@ -466,7 +466,8 @@ func runCase(c *core.Ctx, r *core.Result, t msggen.Target, i int, rng *rand.Rand
 			for _, n := range ns {
 				if strings.HasPrefix(n.M.Type, "MULTIPLE") && len(n.M.Enums) > 1 {
 					a, b := rng.Intn(len(n.M.Enums)), rng.Intn(len(n.M.Enums))
-					if a != b {
+					if a != b && !strings.Contains(n.M.Enums[a]+n.M.Enums[b], " ") && n.M.Enums[a] != "" && n.M.Enums[b] != "" {
+						// (a few shipped enumerations contain members with embedded spaces; those are not combined)
 						n.Val = n.M.Enums[a] + " " + n.M.Enums[b]
 					}
 				}
